@@ -178,6 +178,9 @@ def safe_check(prop, case):
 
     limit = getattr(prop, "CASE_TIMEOUT", 120)
     try:
+        import numpy as _np
+
+        _np.seterr(all="ignore")  # every case starts from the same interpreter-wide numeric state
         with alarm(limit):
             return prop.check(case)
     except Timeout:
